@@ -5,6 +5,13 @@
 //   range.rawContent()/range.length()      (CvRange: a pointer and a length; SBuf itself is not compiled)
 #ifndef CV_INT64_ENV_H
 #define CV_INT64_ENV_H
+#ifdef CV_NATIVE_REPLAY      /* native replay: the real libc / libstdc++ instead of the stubs */
+#include <cstdint>
+#include <cerrno>
+#include <cctype>
+#include <cstddef>
+#include "compat/xis.h"
+#else
 typedef long int64_t;
 typedef unsigned long uint64_t;
 typedef unsigned long size_t;
@@ -14,6 +21,7 @@ extern "C" int cv_errno;
 #define errno cv_errno
 #define ERANGE 34
 #include "compat/xis.h"
+#endif
 struct CvRange {
     const char *p_;
     size_t n_;
